@@ -960,3 +960,46 @@ def wr1(ctx):
                   'the frame loop does not end exactly when the remaining payload is empty (inverted / missing test): entries would be cut short or never end')
     if n == 0:
         ctx.missing('frame-loop', 'no frame loop found in the record writer')
+
+
+@rule('TAINT3', ['C10', 'C08'], floor=2, template='guard-dominates-use')
+def taint3(ctx):
+    """Fixed-size headers are only cut out of a WAL buffer that is known to be long enough."""
+    n = 0
+    for b in ctx.f.bodies.values():
+        if b.generic_dup() or b.is_test or not (b.path.startswith('record::') or b.path.startswith('<record::')):
+            continue
+        if not int_codec_calls(b, 'from'):
+            continue
+        fl = flow_of(b)
+        comps = [c for c in const_comparisons(ctx, b, 'HEADER_LEN')]
+        # sinks: split_at(HEADER_LEN) and index(Range*{.. HEADER_LEN ..})
+        sinks = []
+        for cs in b.calls:
+            if re.search(r'::split_at(_mut)?$', cs.name) and len(cs.args) > 1 and (op_const_named(cs.args[1]) or '').endswith('HEADER_LEN'):
+                sinks.append(cs)
+            elif re.search(INDEX_RE, cs.name) and len(cs.args) > 1:
+                rl = op_local(cs.args[1])
+                for o in (b.trace_local(rl) if rl is not None else []):
+                    if o[0] == 'rv' and o[2]['k'] == 'agg' and any((op_const_named(x) or '').endswith('HEADER_LEN') or op_const_bits(x) is not None for x in o[2]['ops']):
+                        if cs not in sinks:
+                            sinks.append(cs)
+        seen = 0
+        for s_ in sinks:
+            n += 1
+            seen += 1
+            ok = False
+            for c in comps:
+                # the compared quantity is the length of the buffer being cut
+                lv = expr_leaves(b, c['x'])
+                if not any(x[0] == 'call' and x[1].name.endswith('::len') for x in lv):
+                    continue
+                for (bj, te, fe) in switch_on_result(b, c):
+                    enough = fe if c['op'] == 'Lt' else te if c['op'] == 'Ge' else None
+                    short = te if c['op'] == 'Lt' else fe if c['op'] == 'Ge' else None
+                    if enough is not None and b.edge_dominates(enough, s_.point) and s_.point not in b.reach([short[1]]):
+                        ok = True
+            ctx.check(ok, '%s:%s#%d' % (b.path, method_name(s_.name), seen), where(b, s_.point), 'fixed-size cut dominated by `len >= HEADER_LEN`',
+                      'a fixed-size header is cut out of a buffer that may be shorter than HEADER_LEN (inverted or missing length test): a truncated entry makes open panic')
+    if n < 2:
+        ctx.missing('sinks', 'expected fixed-size header cuts in the entry decoder and the batch iterator')
